@@ -203,7 +203,7 @@ pub fn run_c12(args: &Args) -> i32 {
   rep.assume("DB leg: a cleanup verdict is judged only when the measured brackets decide it: must-keep if the largest possible silence <= lease, must-drop if the smallest possible silence > lease; straddling cases are counted as indeterminate");
   rep.assume("stack leg: not-dropped-early judged on (time the loss was observed - time before the last announcement was sent) >= lease; the upper bound (lease + cleanup period 2 s + slack) is a watchdog: 12 s beyond the lease, else violation drop-after; a loss while the harness itself paused > 60% of the lease between keep-alives is inconclusive");
   let seed = args.seed;
-  let ncases = args.scale(600, 20_000);
+  let ncases = args.scale(600, 30_000);
   let replay_case = crate::replay_index(args);
   let replay_is_stack = args.replay.as_ref().and_then(|p| std::fs::read_to_string(p).ok()).map_or(false, |s| s.contains("stack-fake-participants"));
   let mut acc = Acc::default();
